@@ -62,8 +62,18 @@ def report(files=None):
         # lines executed at import time (defs, constants) were run before monitoring started: count
         # only lines inside function bodies, i.e. drop module-level lines
         top = compile(open(path, encoding='utf-8').read(), path, 'exec')
-        module_level = {ln for _, _, ln in top.co_lines() if ln}
-        body = ex - module_level
+        # module level and class bodies run at import time, before monitoring starts: keep only
+        # lines that belong to function bodies (code objects with CO_OPTIMIZED)
+        body, todo = set(), [top]
+        while todo:
+            c = todo.pop()
+            if c.co_flags & 0x1:
+                body |= {ln for _, _, ln in c.co_lines() if ln}
+                body.discard(c.co_firstlineno)
+            for k in c.co_consts:
+                if hasattr(k, 'co_lines'):
+                    todo.append(k)
+        body &= ex
         cov = body & hit
         out['penman/' + f] = {'executable': len(body), 'covered': len(cov),
                               'uncovered': sorted(body - hit)[:80]}
